@@ -263,6 +263,7 @@ def encodeDocument (h : Heap) (d : Nat) : Option (List (Option String × List Tr
 structure LitHint where
   pv : String
   pdt : Option DateTime := none
+  flt : Option FloatAtom := none      -- `float(pv)` for xsd:double (A-LEX, as in C01)
   deriving Repr, Inhabited
 
 def errUnsupported (what : String) : Err := "unsupported:" ++ what
@@ -327,8 +328,8 @@ def decodeTerm (h : Heap) (doc : Nat) (hint : Term → Option LitHint) (t : Term
       match dt with
       | some d =>
         if sContains d "XMLLiteral" || sContains d "base64Binary" then .error (errUnsupported "binary-literal")
-        else if d == xsdU "QName" || d == xsdU "gYear" || d == xsdU "gYearMonth" then .error (errUnsupported "special-datatype")
-        else if d == xsdU "double" || d == xsdU "float" || d == xsdU "decimal" then .error (errUnsupported "float-literal")
+        else if d == xsdU "QName" then .ok (.val (mkLiteral lex (some (xsdQ "QName")) none))   -- pm.Literal(literal, datatype=XSD_QNAME)
+        else if d == xsdU "gYear" || d == xsdU "gYearMonth" then .error (errUnsupported "special-datatype")
         else if d == xsdU "dateTime" then
           match hn.pdt with
           | some t => .ok (.val (.dt t))
@@ -476,14 +477,20 @@ def walk : List (QName × List ArgVal) → List (List (QName × ArgVal))
   | [] => [[]]
   | (k, vs) :: rest => vs.flatMap (fun v => (walk rest).map (fun tail => (k, v) :: tail))
 
-def slotsToAttrs (slots : List (QName × Option ArgVal)) : List AttrArg :=
-  slots.map (fun p => ⟨.qn p.1, p.2.getD .nil, none⟩)
+/-- the float hint that goes with a value read from an xsd:double literal -/
+def fltFor (fltOf : String → Option FloatAtom) : ArgVal → Option FloatAtom
+  | .val (.lit lex (some t) none) => if t.uri == xsdU "double" then fltOf lex else none
+  | _ => none
 
-def otherToAttrs (o : List (NameArg × ArgVal)) : List AttrArg := o.map (fun p => ⟨p.1, p.2, none⟩)
+def slotsToAttrs (fltOf : String → Option FloatAtom) (slots : List (QName × Option ArgVal)) : List AttrArg :=
+  slots.map (fun p => ⟨.qn p.1, p.2.getD .nil, fltFor fltOf (p.2.getD .nil)⟩)
+
+def otherToAttrs (fltOf : String → Option FloatAtom) (o : List (NameArg × ArgVal)) : List AttrArg :=
+  o.map (fun p => ⟨p.1, p.2, fltFor fltOf p.2⟩)
 
 /-- third pass: the records created for the typed nodes, in `ids` order; then the leftover check
     (`ids[key].add_attributes(val)`: KeyError for an untyped subject, AttributeError for a created one) -/
-def creationPass (st : DecSt) : List Create × Option Err := Id.run do
+def creationPass (fltOf : String → Option FloatAtom) (st : DecSt) : List Create × Option Err := Id.run do
   let mut out : List Create := []
   let mut other := st.other
   for (id, k) in st.ids do
@@ -491,16 +498,16 @@ def creationPass (st : DecSt) : List Create × Option Err := Id.run do
     let slots := (assocGet st.formal id).getD []
     let us := (assocGet st.uniq id).getD []
     let toWalk := us.filter (fun p => p.2.length > 1)
-    let extra := otherToAttrs (attrs.getD [])
+    let extra := otherToAttrs fltOf (attrs.getD [])
     if toWalk.isEmpty then
-      out := out ++ [⟨k, .str id, slotsToAttrs slots ++ extra⟩]
+      out := out ++ [⟨k, .str id, slotsToAttrs fltOf slots ++ extra⟩]
     else
       -- formal_attributes[id] is updated in place: later subsets see the earlier assignments
       let mut cur := slots
       for subset in walk toWalk do
         for (key, v) in subset do
           cur := slotSet cur key (some v)
-        out := out ++ [⟨k, .str id, slotsToAttrs cur ++ extra⟩]
+        out := out ++ [⟨k, .str id, slotsToAttrs fltOf cur ++ extra⟩]
     if attrs.isSome then other := assocSet other id []
   let mut err : Option Err := none
   for (key, val) in other do
@@ -509,7 +516,7 @@ def creationPass (st : DecSt) : List Create × Option Err := Id.run do
   return (out, err)
 
 /-- `decode_container(graph, bundle)` -/
-def decodeContainer (h : Heap) (doc c : Nat) (hint : Term → Option LitHint)
+def decodeContainer (h : Heap) (doc c : Nat) (hint : Term → Option LitHint) (fltOf : String → Option FloatAtom)
     (typeTriples all : List Triple) : Heap × Option Err :=
   match typeTriples.foldlM (typePass h doc hint) ({} : DecSt) with
   | .error e => (h, some e)
@@ -535,7 +542,7 @@ def decodeContainer (h : Heap) (doc c : Nat) (hint : Term → Option LitHint)
     match go h st1 all with
     | (h2, .error e) => (h2, some e)
     | (h2, .ok st2) =>
-      let (creates, leftover) := creationPass st2
+      let (creates, leftover) := creationPass fltOf st2
       let rec mk (h : Heap) : List Create → Heap × Option Err
         | [] => (h, none)
         | cr :: more =>
@@ -553,8 +560,8 @@ structure GraphIn where
   deriving Inhabited
 
 /-- `decode_document(content, document)` on a fresh document -/
-def decodeDocument (h : Heap) (nss : List Ns) (graphs : List GraphIn) (hint : Term → Option LitHint) :
-    Heap × Except Err Nat :=
+def decodeDocument (h : Heap) (nss : List Ns) (graphs : List GraphIn) (hint : Term → Option LitHint)
+    (fltOf : String → Option FloatAtom := fun _ => none) : Heap × Except Err Nat :=
   let (h0, d) := h.newDoc
   let h1 := nss.foldl (fun (hh : Heap) n => (hh.addNs d n).1) h0
   let rec go (h : Heap) : List GraphIn → Heap × Option Err
@@ -562,14 +569,14 @@ def decodeDocument (h : Heap) (nss : List Ns) (graphs : List GraphIn) (hint : Te
     | g :: rest =>
       match g.id with
       | none =>
-        match decodeContainer h d d hint g.typeTriples g.all with
+        match decodeContainer h d d hint fltOf g.typeTriples g.all with
         | (h', none) => go h' rest
         | (h', some e) => (h', some e)
       | some bid =>
         match h.bundle d (.str bid) with
         | (h', .error e) => (h', some e)
         | (h', .ok b) =>
-          match decodeContainer h' d b hint g.typeTriples g.all with
+          match decodeContainer h' d b hint fltOf g.typeTriples g.all with
           | (h'', none) => go h'' rest
           | (h'', some e) => (h'', some e)
   match go h1 graphs with
